@@ -1,6 +1,7 @@
 package main
 
 import (
+	"sort"
 	"fmt"
 	"strings"
 
@@ -471,6 +472,33 @@ func c01Run(c *Ctx) {
 			}
 		}
 	}
+	// 9c. property names are plain identifiers: every built-in name (and a few other words) as a key of an
+	// object literal, after a dot on the right and on the left of an assignment (tree comparison)
+	{
+		var names []string
+		for _, n := range B {
+			names = append(names, n)
+		}
+		sort.Strings(names)
+		names = append(names, "input", "nil2", "k", "\u09ae\u09be\u09a8")
+		for _, n := range names {
+			for _, form := range []string{"o = {%s: 1};", "o = {k: 1, %s: 2, j: {%s: 3}};", "o.%s;", "o.%s = 1;", "o.%s.%s = o.k;", "f({%s: [1]}).%s;", K["print"] + " {%s: 1}.%s;", K["return"] + " {%s: a, k: {%s: b}};"} {
+				if c.Mine() {
+					tj(&Case{Gen: "property-names", Src: strings.ReplaceAll(form, "%s", n)})
+				}
+			}
+		}
+	}
+	// 9d. interactive mode: a bare expression statement and the same expression in redundant parentheses
+	// are echoed alike, whatever the expression yields (nil included)
+	{
+		pre := Fun("nothing", "", "") + " " + Fun("zero", "", " "+Ret("0")+" ") + " " + Fun("give", "v", " "+Ret("v")+" ") + " " + Var("o", "{f: nothing, k: nil, n: 5}") + " " + Var("a", "[nil, 0, nothing]")
+		for _, e := range []string{"nothing()", "zero()", "give(nil)", `give("")`, "give(" + False() + ")", "o.f()", "o.k", "o.n", "a[0]", "a[1]", "a[2]()", "nil", "0", `""`, False(), "give(give)(nil)", "1 + 1", "[]", "nothing", B["len"], BI("len", "[]"), BI("abs", "0")} {
+			if c.Mine() {
+				c01Judge(c, &Case{Gen: "paren-print-equivalence", Src: pre + "\n" + e + ";\n", Alt: []string{pre + "\n(" + e + ");\n", pre + "\n((" + e + "));\n"}, X: map[string]string{"repl": "1"}})
+			}
+		}
+	}
 	// 10. the same for whole programs: the hand-written scoping / call programs and generated programs,
 	// each against the text with every composite sub-expression parenthesised as the ladder groups it,
 	// and with every atom parenthesised as well (callee, operand, index, condition positions)
@@ -535,10 +563,17 @@ func c01Judge(c *Ctx, cs *Case) {
 				return
 			}
 		} else {
-			a = RunLib(cs.Src, RunOpts{MaxSteps: 100000})
-			b = RunLib(cs.Alt[0], RunOpts{MaxSteps: 100000})
+			repl := cs.X != nil && cs.X["repl"] == "1"
+			a = RunLib(cs.Src, RunOpts{MaxSteps: 100000, Repl: repl})
+			b = RunLib(cs.Alt[0], RunOpts{MaxSteps: 100000, Repl: repl})
 			if CheckAbnormal(c, a) || CheckAbnormal(c, b) {
 				return
+			}
+			if len(cs.Alt) > 1 && sameObs(a, b) {
+				b = RunLib(cs.Alt[1], RunOpts{MaxSteps: 100000, Repl: repl})
+				if CheckAbnormal(c, b) {
+					return
+				}
 			}
 		}
 		if !sameObs(a, b) {
